@@ -11,7 +11,9 @@
      elftools/elf/structs.py   _create_dyn / _create_phdr / _create_shdr: which decoding dict a
                                machine / OS ABI selects (tabulated by Gen/ElfLayouts.v)
 
-   Conventions.  A stream is the byte list; every read of this code is absolute
+   Conventions.  Loops over a record count n run clampn img n = min(n, len+1) times: a longer
+   run has failed on a short read before (it keeps astronomic counts from garbage executable).
+   A stream is the byte list; every read of this code is absolute
    (stream_pos=...), except the GNU chain walk, which seeks first.  Header tables are
    read eagerly (Python creates the objects lazily, one get_segment/get_section at a time;
    the two differ only when a later header cannot be parsed).  Enum members are decoded
@@ -44,7 +46,15 @@ Fixpoint assoc_s {A} (l : list (string * A)) (k : string) : option A :=
 
 (* ---------- struct_parse(L, stream, stream_pos=off) ---------- *)
 Definition parse_at (L : layout) (img : list Z) (off : Z) : res (list (string * fval)) :=
-  match decode_layout L (skipn (Z.to_nat off) img) with
+  match decode_layout L (seekz img off) with
+  | Some (r, _) => Ok r
+  | None => Err EParse
+  end.
+(* the same for the hash headers, whose arrays are counted by 32-bit words of the header
+   (decode_counted is decode_layout, see Spec/C09Dyn.v) *)
+Definition parse_counted_at (L : layout) (le : bool) (counts : list nat) (img : list Z) (off : Z)
+  : res (list (string * fval)) :=
+  match decode_counted L le counts (seekz img off) with
   | Some (r, _) => Ok r
   | None => Err EParse
   end.
@@ -145,7 +155,7 @@ Fixpoint section_headers_go (f : elf) (i : Z) (n : nat) : res (list shdr) :=
   end.
 (* the headers iter_sections walks *)
 Definition section_headers (f : elf) : res (list shdr) :=
-  do n <- num_sections f; section_headers_go f 0 (Z.to_nat n).
+  do n <- num_sections f; section_headers_go f 0 (clampn (f_img f) n).
 
 (* num_segments / _segment_offset / _get_segment_header *)
 Definition segment_header (f : elf) (n : Z) : res phdr :=
@@ -172,7 +182,7 @@ Inductive strtab :=
 (* get_string(offset):  s = parse_cstring_from_stream(stream, table_offset + offset)
                         return s.decode('utf-8') if s else '' *)
 Definition cstring_or_empty (img : list Z) (pos : Z) : list Z :=
-  match parse_cstring_at img (Z.to_nat pos) with Some s => s | None => [] end.
+  match cstr_chunks (S (length img)) (seekz img pos) with Some s => s | None => [] end.
 Definition get_string (img : list Z) (st : strtab) (offset : Z) : res (list Z) :=
   match st with
   | StSection off true => Ok (cstring_or_empty img (off + offset))
@@ -404,11 +414,15 @@ Fixpoint relr_go (fuel : nat) (f : elf) (relr limit : Z) (base : option Z) (ents
 
 Definition reltab_entries (f : elf) (t : reltab) : res (list relent) :=
   match t with
-  | RelTable _ None _ _ => Err (EPy "TypeError")
-  | RelTable _ (Some off) size is_rela =>
+  | RelTable _ off size is_rela =>
       let es := Rel_sizeof f is_rela in
-      do rs <- parse_table (rel_layout f is_rela) (f_img f) off es (Z.to_nat (size / es));
-      Ok (map (relent_of is_rela) rs)
+      if size / es <=? 0 then Ok []                       (* range(num_relocations()) is empty *)
+      else match off with
+           | None => Err (EPy "TypeError")                (* None + n * entry_size *)
+           | Some o =>
+               do rs <- parse_table (rel_layout f is_rela) (f_img f) o es (clampn (f_img f) (size / es));
+               Ok (map (relent_of is_rela) rs)
+           end
   | RelrTable off size entsize =>
       if size =? 0 then Ok []
       else match off with
@@ -464,7 +478,7 @@ Definition iter_segments (f : elf) : res (list phdr) :=
 (* ---------- hash tables: the symbol count ---------- *)
 (* ELFHashTable.__init__ + get_number_of_symbols: params['nchains'] *)
 Definition sysv_num_symbols (f : elf) (off : Z) : res Z :=
-  do r <- parse_at (gen_Elf_Hash (f_le f) (f_is64 f)) (f_img f) off;
+  do r <- parse_counted_at (gen_Elf_Hash (f_le f) (f_is64 f)) (f_le f) [0; 1]%nat (f_img f) off;
   Ok (rec_z r "nchains").
 
 (* the chain walk: stream.seek(pos); while True: cur = unpack(stream.read(4)); if cur & 1: return idx+1; idx += 1 *)
@@ -472,7 +486,7 @@ Fixpoint gnu_walk (fuel : nat) (f : elf) (pos idx : Z) : res Z :=
   match fuel with
   | O => Err EFuel
   | S k =>
-      match take 4 (skipn (Z.to_nat pos) (f_img f)) with
+      match take 4 (seekz (f_img f) pos) with
       | None => Err (EPy "error")                      (* struct.error on a short read *)
       | Some (w, _) =>
           if negb (Z.land (int_decode (f_le f) w) 1 =? 0) then Ok (idx + 1)
@@ -482,7 +496,7 @@ Fixpoint gnu_walk (fuel : nat) (f : elf) (pos idx : Z) : res Z :=
 Definition list_max (l : list Z) : Z := fold_right Z.max 0 l.
 (* GNUHashTable.__init__ + get_number_of_symbols *)
 Definition gnu_num_symbols (f : elf) (off : Z) : res Z :=
-  do r <- parse_at (gen_Gnu_Hash (f_le f) (f_is64 f)) (f_img f) off;
+  do r <- parse_counted_at (gen_Gnu_Hash (f_le f) (f_is64 f)) (f_le f) [0; 2]%nat (f_img f) off;
   let wordsize := 4 in let xwordsize := if f_is64 f then 8 else 4 in
   let chain_pos := off + 4 * wordsize + rec_z r "bloom_size" * xwordsize + rec_z r "nbuckets" * wordsize in
   match rec_get r "buckets" with
@@ -562,7 +576,7 @@ Fixpoint symbols_go (f : elf) (ps : list phdr) (ts : list rawtag) (dy : dynobj) 
   end.
 (* iter_symbols() *)
 Definition iter_symbols (f : elf) (ps : list phdr) (ts : list rawtag) (dy : dynobj) : res (list symbol) :=
-  do n <- num_symbols f ps ts dy; symbols_go f ps ts dy 0 (Z.to_nat n).
+  do n <- num_symbols f ps ts dy; symbols_go f ps ts dy 0 (clampn (f_img f) n).
 
 (* get_symbol_by_name(name): the symbols whose name equals name, None when there is none *)
 Definition get_symbol_by_name (syms : list symbol) (name : list Z) : option (list symbol) :=
@@ -587,7 +601,7 @@ Definition section_symbols (f : elf) (h : shdr) : res (list symbol) :=
   if negb (sht_is f str "SHT_STRTAB") then Err EElf
   else if negb (0 <? sh_entsize h) then Err EElf
   else if negb (sh_size h mod sh_entsize h =? 0) then Err EElf
-  else section_symbols_go f h str 0 (Z.to_nat (sh_size h / sh_entsize h)).
+  else section_symbols_go f h str 0 (clampn (f_img f) (sh_size h / sh_entsize h)).
 
 (* ---------- the two views ---------- *)
 Definition first_res {A} (l : list A) (e : err) : res A :=
